@@ -11,7 +11,7 @@ func prop(id, title string, quick, thorough []string, decided, notDecided string
 
 func init() {
 	prop("C01", "Token flow conforms to BPMN semantics",
-		[]string{"R1", "R2", "R3", "R3d", "R3e", "R5", "R6", "R7", "R8", "R9", "R10", "R13", "R36", "R38", "R39", "R51", "R57", "R52", "R53", "R54", "R59"}, nil,
+		[]string{"R1", "R2", "R3", "R3d", "R3e", "R5", "R6", "R7", "R8", "R9", "R10", "R13", "R36", "R38", "R39", "R51", "R57", "R52", "R53", "R54", "R59", "R78", "R79", "R80", "R82", "R83", "R85", "R86", "R87"}, nil,
 		"Structural necessary conditions of token accounting, decided on every path of the analysed functions: every token goroutine is counted before it starts and uncounted exactly once on every exit (R1); every request taken from a node mailbox is answered, parked, delegated or reported on every path and never answered twice, a releasing join hands each parked token exactly one action and empties its parked list / counter (R2,R3,R3d); every message type posted has a handler (R5) and every action type an interpreter, enum switches are exhaustive (R6); forked flows start only after the FlowTrace that announces them, a terminal trace is the last trace, leave/move/visit are ordered, every token exit is announced (R7-R10); the element->node mapping is frozen before use (R13); process and sub-process build and register the same 18 node kinds with checked constructor errors (R36). Round 2: a probed decision is final and its reply slot is cleared on every answering path (R52,R53); the inclusive join's decision depends on the identities of arrived and awaited tokens and is re-evaluated after every refresh of the cohort (R54,R59); a token that did not move never asks its node again (R57).",
 		"that conditions evaluate to the right truth value, that the number of requests equals what the token game prescribes for a given graph and data, order consistency for a given graph, final variable values (these quantify over process graphs and inputs).")
 	prop("C02", "Completion is reported iff all start events fired and no token remains",
@@ -19,19 +19,19 @@ func init() {
 		"Decides: the wait group 'no token remains' is read from is paired (R1); CeaseFlowTrace has one send site per monitor, only in the branch that saw the flow wait group drained and after the loop that counted all start events, the completion lock is taken synchronously before the monitor goroutine exists and released on all exits, and WaitUntilComplete observes that lock (R12); the monitor's subscription must precede the start trigger (R11); WaitUntilComplete and its helper contain no unguarded blocking operation, i.e. a waiter whose context expired cannot leave a helper behind that owns the completion lock (R14). Round 2: every mutex (incl. the completion lock) is released on every path or handed over structurally (R58); start trigger, monitor and watchers run under the caller's context (R60).",
 		"bounded latency of completion, behaviour with several start events beyond the single send site, 'exactly once after every other flow trace' as a history fact.")
 	prop("C03", "Parallel gateway",
-		[]string{"R2", "R3", "R3d", "R3e", "R4", "R24", "R47", "R51"}, nil,
+		[]string{"R2", "R3", "R3d", "R3e", "R4", "R24", "R47", "R51", "R82", "R83"}, nil,
 		"Decides: a token's request at the gateway is never dropped (R2); on release every parked token receives exactly one action (surplus ones completeAction), the parked list is emptied and the arrival counter re-initialised in the releasing branch so that re-entry starts from scratch (R3,R3d); a release can never strand the gateway on a token that left (reply capacity, R4); join state is confined to the gateway goroutine (R24).",
 		"that the comparison is == N rather than >= N, the partition arithmetic of distributeFlows (value-level facts).")
 	prop("C04", "Exclusive gateway",
-		[]string{"R2", "R5", "R24", "R26", "R38", "R39", "R51", "R52", "R53"}, nil,
+		[]string{"R2", "R5", "R24", "R26", "R38", "R39", "R51", "R52", "R53", "R78", "R79", "R80"}, nil,
 		"Decides: every request and every probe report is answered, parked, re-queued or reported (R2,R5); probing state is confined to the gateway goroutine (R24); both registered expression engines are usable from the token goroutine without a nil-map write (R26a); the list of candidate flows is an order-preserving filter of the gateway's outgoing flows and is not reordered afterwards (R39); a decision handed to a token is a fresh slice that later decisions cannot overwrite (R38). Round 2: the flowAction answered after a probe marks its flows unconditional (R52); the probing slot is cleared on every answering path (R53).",
 		"'first true wins' as a value fact, truth values of conditions, position of the default.")
 	prop("C05", "Inclusive gateway",
-		[]string{"R2", "R3", "R3e", "R4", "R10", "R16", "R19", "R22", "R24", "R47", "R48", "R52", "R53", "R54", "R59"}, nil,
+		[]string{"R2", "R3", "R3e", "R4", "R10", "R16", "R19", "R22", "R24", "R47", "R48", "R52", "R53", "R54", "R59", "R79", "R80", "R83", "R85", "R86"}, nil,
 		"Decides: requests are never dropped (R2); every way a token can end is visible in the trace stream the join's tracker reads (R10); the tracker's subscription and goroutine have a lifecycle (R19,R16); tracker map accesses follow its lock protocol (R22); gateway state is confined (R24); the join releases each parked token exactly once and re-arms (R3); reply capacity (R4). Round 2: R52/R53 as for the exclusive gateway; the synchronise decision is control dependent on the elements of both the awaited and the arrived set (R54) and is re-evaluated after each cohort refresh (R59).",
 		"that `awaiting` is the right set at the right time (it is read from an asynchronously maintained picture), early or late firing under a given schedule.")
 	prop("C06", "Event-based gateway",
-		[]string{"R0", "R16", "R20", "R21", "R23", "R25"}, nil,
+		[]string{"R0", "R16", "R20", "R21", "R23", "R25", "R87"}, nil,
 		"Decides: the winner is chosen by one atomic compare-and-swap on a variable that is accessed only atomically (R23); the notification of losers cannot block the winner and is not sent on a closed channel (R0,R21,R20); the termination-channel map is not shared unsynchronised between the winner's and the losers' goroutines (R25); every loser's token honours its termination channel in the same select as its pending action (R16).",
 		"'the instance goes on to complete', outcomes of particular delivery interleavings.")
 	prop("C07", "Cancellation stops everything and leaks nothing",
@@ -39,15 +39,15 @@ func init() {
 		"Decides, for every goroutine the engine can start and every channel operation in the engine packages: each operation falls into a discharged class — select-guarded by a done-source or default, reply with capacity, mailbox post with a running owner, tracer protocol, closed-only/timer receive, buffered single-use (R0,R4,R14); every parking loop leaves through a done-source case and no done-source case spins (R16); what a goroutine acquired it releases on all exits: wait-group count (R1), sender handle (R17), subscription (R19), completion lock (R12); every goroutine that sends traces holds a sender handle of the tracer it sends on (R18); channels are closed once and never sent to afterwards (R20,R21). Round 2: lock pairing (R58), context agreement (R60), per-request goroutine state (R56); a registered sender handle reaches its owner goroutine on every path (R17 post-dominance).",
 		"'promptly'; that a task request racing the cancel carries a cancelled context beyond the structural binding; liveness of third-party code.")
 	prop("C08", "Task requests",
-		[]string{"R6", "R14[Do]", "R20", "R27", "R40", "R55", "R56", "R76"}, nil,
+		[]string{"R6", "R14[Do]", "R20", "R27", "R40", "R55", "R56", "R76", "R81"}, nil,
 		"Decides: Do cannot block (R14); the answer path forwards at most one response and always closes `done` exactly once (R20,R40); only declared result names / data outputs reach instance data (R27); the error-mode switch is exhaustive, the retry branch steps the counter on every path back to the select, skip falls through to the flow handling and exit returns (R6,R40). Round 2: the retry decision is taken against Reset(handler.Retries) on every path and every further attempt is stepped (R55); the per-request goroutine shares no mutable state declared outside the message loop (R56).",
 		"'first Do wins' as a value fact, retry count arithmetic.")
 	prop("C09", "Trace stream total order",
-		[]string{"R7", "R8", "R9", "R37", "R63"}, nil,
+		[]string{"R7", "R8", "R9", "R37", "R63", "R83"}, nil,
 		"Decides: single broadcaster, sequential, non-dropping delivery to every subscriber, subscriber list confined to it, one select serving subscribe/unsubscribe/trace/terminate, Unsubscribe drains while requesting, relay forwards sequentially (R37); announce-before-start, terminal-last, leave/visit bracketing in the token goroutine (R7,R8,R9). Round 2: removal of a subscriber moves the last element into the hole, not the other way round (R63).",
 		"absence of deadlock in general (Subscribe after termination blocks), per-run order facts.")
 	prop("C10", "Boundary events",
-		[]string{"R41", "R23", "R0", "R61", "R62", "R76"}, nil,
+		[]string{"R41", "R23", "R0", "R61", "R62", "R76", "R84"}, nil,
 		"Decides: Activity.Cancel is called only inside the harness's once-only cancellation; the interrupting transformer is installed iff CancelActivity(); events reach boundary listeners only while the activity is active and `active` is set before the activity is asked and cleared after its answer is relayed (R41,R23); necessary conditions for 'normal flow never after interruption' (state written by the cancellation is read on the relay path) and for 'boundary listeners do not keep the instance from completing' (listener flows do not count on the process wait group or are terminated with the activity) (R41). Round 2: per-iteration state of the boundary-event loop does not leak between boundary events (R61); no mailbox post is lossy (R62).",
 		"interleavings of event and answer.")
 	prop("C11", "Event delivery",
@@ -75,7 +75,7 @@ func init() {
 		"Decides: reflect accessor/kind agreement and nil-type discipline in the value layer (R26b,c); ItemType switches are exhaustive (R28); no mutable package-level state in the value/data layer besides a locked registry, and NewOptions allocates a fresh locator (R45). Round 2: numbers are written into ItemValue with a lossless format (R66); a map decoded with the error ignored is never nil (R67).",
 		"round-trip equality of values (formatting, integer ranges).")
 	prop("C17", "No data race, no panic",
-		[]string{"R20", "R21", "R22", "R23", "R24", "R25", "R26", "Rerr", "R58", "R1", "R74"}, nil,
+		[]string{"R20", "R21", "R22", "R23", "R24", "R25", "R26", "Rerr", "R58", "R1", "R74", "R87"}, nil,
 		"Decides: lockset discipline over all mutex-bearing structs (R22), atomic-only consistency (R23), owner-goroutine confinement of node state (R24), closure-shared locals (R25), nil-map / reflect discipline (R26), dropped constructor errors (Rerr, thorough). Round 2: lock pairing on every path (R58); wait-group Add precedes the go statement (R1).",
 		"races on memory that has no discipline to infer; 'the outcome is one the sequential semantics allows'.")
 	prop("C18", "Process set",
